@@ -256,8 +256,13 @@ def _feature_oracle(ctx, V, F, declared, only_border, corner_order, flag_corners
                 elif d < thr:
                     w.add(i)
         return w, und
-    ok, det = ctx.call("FeatureEdgeDetector", lambda: M.processing.FeatureEdgeDetector(only_border=only_border, flag_corners=flag_corners, corner_order=corner_order,
-                                                                                       verbose=False), monitor="features")
+    if corner_order == 4 and flag_corners and not only_border and len(V) % 2 == 0:
+        # the documented defaults (only_border=False, flag_corners=True, corner_order=4) left to the library
+        ctx.cls("detector:default_options")
+        ok, det = ctx.call("FeatureEdgeDetector", lambda: M.processing.FeatureEdgeDetector(verbose=False), monitor="features")
+    else:
+        ok, det = ctx.call("FeatureEdgeDetector", lambda: M.processing.FeatureEdgeDetector(only_border=only_border, flag_corners=flag_corners, corner_order=corner_order,
+                                                                                           verbose=False), monitor="features")
     ok, _ = ctx.call("detect", det.detect, m, monitor="features")
     ctx.obs("features", tag)
     try:
